@@ -267,8 +267,17 @@ class MsFacts:
     pass
 
 
-def ms_step(I, ctx, ob, crate, variant, statuses=("Open", "Rejected", "Passed", "Executed")):
-    """arbitrary multisig state satisfying the invariants -> one execute call; returns the facts the property specs talk about"""
+def ms_step(I, ctx, ob, crate, variant, statuses=("Open", "Rejected", "Passed", "Executed"), after=None):
+    """arbitrary multisig state satisfying the invariants -> one execute call; returns the facts the property specs talk about.
+    With `after`, a first call of that variant on the focus proposal is made from the arbitrary state and `variant` is then
+    called (any sender, any later block, fresh group state) on the state the first call really produced: a two-call chain whose
+    second call is judged by the same obligations (f.outcome == "skip" when the first call does not succeed on the focus)."""
+    if after is not None:
+        f1 = ms_step(I, ctx, ob, crate, after)
+        if f1.outcome != "Ok" or f1.on_focus is not True:
+            f1.outcome = "skip"; ob.outcome = "skip"
+            return f1
+        return ms_second(I, ctx, ob, f1, variant)
     f = MsFacts()
     f.crate, f.variant = crate, variant
     install_kernel_abstraction(I, ctx)
@@ -325,6 +334,44 @@ def ms_step(I, ctx, ob, crate, variant, statuses=("Open", "Rejected", "Passed", 
             if dep.variant == "Some": ctx.assume(dep.fields[0].get("amount") > 0)
     f.outcome, f.resp, f.pre = call_entry(I, ctx, ob, crate, "execute", "execute", [make_deps(), f.env, f.info, m], f.env, f.info, m, "msg::ExecuteMsg", crate,
                                           querier=(f.genv.to_request if crate == FLEX else None))
+    f.post = ctx.storage
+    f.blk = blk
+    return f
+
+
+def ms_second(I, ctx, ob, f1, variant):
+    """second call of a chain, on the storage the first call left behind"""
+    crate = f1.crate
+    f = MsFacts()
+    f.crate, f.variant, f.first = crate, variant, f1
+    f.V, f.cfg, f.pid = f1.V, f1.cfg, f1.pid
+    st = ctx.storage
+    oid = st["proposals"].slots[1][0][0]
+    f.focus = focus_post(ctx, f1)[1]
+    blk1 = f1.env.get("block")
+    h2, t2 = ctx.fresh_int("block2.height", 0, U64), ctx.fresh_int("block2.time", 0, U64)
+    ctx.assume(zand(h2 >= blk1.get("height"), t2 >= blk1.get("time")))
+    blk = Struct("BlockInfo", [h2, t2, "chain"], ["height", "time", "chain_id"])
+    f.env = f1.env.with_("block", blk)
+    f.info = mk_info(I, ctx, name="sender2")
+    f.sender = f.info.get("sender")
+    f.si = resolve(ctx, f.sender, f.V)
+    f.needs_focus = True
+    if crate == FLEX:
+        # the group may have changed arbitrarily since the first call; its history (weights at earlier heights) is the same
+        g1 = f1.genv
+        f.genv = ctx.env = GroupEnv(I, ctx, g1.group_addr, f.V)
+        f.genv.hist = g1.hist
+    msg = symval.fresh(I, ctx, "msg::ExecuteMsg", "msg2", None, crate)
+    msg.variants = [variant]
+    f.msg = m = I.force(ctx, msg)
+    f.on_focus = None
+    if variant in ("Vote", "Execute", "Close"):
+        f.on_focus = ctx.branch(m.get("proposal_id") == f.pid, "second targets focus?")
+        if not f.on_focus: ctx.assume(m.get("proposal_id") != oid)
+    f.outcome, f.resp, f.pre = call_entry(I, ctx, ob, crate, "execute", "execute", [make_deps(), f.env, f.info, m], f.env, f.info, m, "msg::ExecuteMsg", crate,
+                                          querier=(f.genv.to_request if crate == FLEX else None))
+    ob.outcome = f"{f1.variant}:Ok>{f.outcome}"
     f.post = ctx.storage
     f.blk = blk
     return f
